@@ -39,11 +39,24 @@ def gen_case(rng, tier, idx):
     prof = dict(PROFILE)
     if mode in ("jit", "jit_nan"):
         prof["crops"] = CAL_CROPS
+    if mode == "extend":
+        # whatever is derived from the window as a whole is a candidate for depending on the end date: CO2 interpolation
+        # over the simulated years (sparse user tables, and the decadal part of the default record after 2010), the number
+        # of scheduled seasons, the crop calendar
+        prof.update({"co2_p": 0.6, "co2_series_extra_years": 5, "n_seasons": [1, 2, 2, 3], "weather_extra_after": 1500})
     spec = gen_spec(rng, prof)
     case = {"spec": spec, "mode": mode, "seed": rng.getrandbits(32), "redraw_every": rng.choice([1, 3, 10, 50, 100000]),
             "partition_k": rng.choice([1, 1, 7, 30, 100000])}
     if mode == "extend":
-        case["extend_days"] = rng.choice([1, 2, 30, 200, 365, 366, 730])
+        case["extend_days"] = sorted(set([rng.choice([1, 2, 30, 200]), rng.choice([365, 366, 730]), rng.choice([731, 1096, 1461])]))
+        if rng.random() < 0.4:
+            # a sparse CO2 record above the reference concentration: values for the simulated years are interpolated in time
+            import datetime as _dt
+            y0, y1 = parse_date(spec["start"]).year, parse_date(spec["end"]).year
+            step = rng.choice([5, 10])
+            first = y0 - 1 - rng.randrange(step)
+            base = rng.choice([400.0, 450.0, 600.0])
+            spec["co2"] = {"series": [[y, round(base + 3.0 * (y - y0), 2)] for y in range(first, y1 + 6 + step, step)]}
     if mode == "outside":
         case["pad_front"], case["pad_back"] = rng.choice([0, 1, 30, 500]), rng.choice([0, 1, 30, 500])
     return case
@@ -165,7 +178,9 @@ def run_case(case):
             if d is not None:
                 V("C14:depends-on-records-outside-window", f"{no} garbage records outside the window: {d}")
         else:  # extend
-            ext = int(case["extend_days"])
+          exts = case["extend_days"] if isinstance(case["extend_days"], list) else [case["extend_days"]]
+          for ext in exts:
+            ext = int(ext)
             sp2 = clone(spec)
             new_end = parse_date(spec["end"]) + dt.timedelta(days=ext)
             if new_end.month == 2 and new_end.day == 29:
@@ -182,11 +197,12 @@ def run_case(case):
                 if kind == "harness":
                     raise
                 if kind == "permitted":
-                    res["status"] = "rejected"
-                    res["reason"] = "extended window: " + sig
-                    return res
+                    res["probes"]["extension_rejected"] = res["probes"].get("extension_rejected", 0) + 1
+                    continue
                 raise
             res["days"] += cand.steps_done
+            res["evals"] += 1
+            res["faults"]["end_date_extension"] = res["faults"].get("end_date_extension", 0) + 1
             tc = cand.tables()
             fin_s = tr["final"] or []
             fin_l = tc["final"] or []
